@@ -1,47 +1,247 @@
-#include "sim.hpp"
-#include "observe.hpp"
-#include <nix.hpp>
+// nixsim command line: worker (zygote; one forked process per run), plan, exec.
+#include "engine.hpp"
 #include <cstdio>
 #include <cstdlib>
+#include <cstring>
+#include <csignal>
+#include <fcntl.h>
+#include <dirent.h>
 #include <unistd.h>
+#include <sys/mman.h>
 #include <sys/stat.h>
+#include <sys/wait.h>
+#include <sys/syscall.h>
+#include <sstream>
+#include <fstream>
+#include <exception>
 
 extern "C" __attribute__((used)) const char *__asan_default_options() {
-    return "exitcode=77:detect_leaks=0:abort_on_error=0:handle_abort=1:allocator_may_return_null=1";
+    return "exitcode=77:detect_leaks=0:abort_on_error=0:allocator_may_return_null=1:detect_stack_use_after_return=0";
 }
 extern "C" __attribute__((used)) const char *__ubsan_default_options() {
     return "print_stacktrace=1:halt_on_error=1:exitcode=77";
 }
 
-int main(int argc, char **argv) {
-    using namespace sim;
-    std::string dir = "/dev/shm/nixsim-test";
-    mkdir(dir.c_str(), 0755);
+namespace sim {
+int run_special(World &w, const Plan &p, const std::string &dir);   // special.cpp
+bool lane_is_special(const std::string &lane);
+
+struct Progress { volatile int op_index; volatile int op_kind; volatile int phase; };
+Progress *g_prog = nullptr;
+void progress(int idx, int kind) { if (g_prog) { g_prog->op_index = idx; g_prog->op_kind = kind; } }
+}
+
+using namespace sim;
+
+static std::string jesc(const std::string &s) {
+    std::string o;
+    for (unsigned char c : s) {
+        if (c == '"' || c == '\\') { o += '\\'; o += (char) c; }
+        else if (c < 32 || c >= 127) { char b[8]; snprintf(b, sizeof b, "\\u%04x", c); o += b; }
+        else o += (char) c;
+    }
+    return o;
+}
+
+static void wipe_dir(const std::string &dir) {
+    DIR *d = opendir(dir.c_str());
+    if (!d) return;
+    while (struct dirent *e = readdir(d)) {
+        if (e->d_name[0] == '.') continue;
+        std::string p = dir + "/" + e->d_name;
+        syscall(SYS_unlink, p.c_str());
+    }
+    closedir(d);
+}
+
+static std::string prop_of_oracle(const std::string &o) { size_t d = o.find('.'); return d == std::string::npos ? o : o.substr(0, d); }
+
+static std::string result_json(const World &w, const Plan &p, long idx, uint64_t seed) {
+    std::ostringstream o;
+    Hash shape;
+    for (auto &op : p.ops) shape.u64((uint64_t) op.kind);
+    Hash ev = w.evh;
+    ev.u64(disk_event_hash());
+    o << "{\"idx\":" << idx << ",\"seed\":" << seed << ",\"lane\":\"" << p.swarm.lane << "\"";
+    std::string verdict = "ok";
+    if (w.viol.set) verdict = prop_of_oracle(w.viol.oracle) == w.lane_prop ? "viol" : "foreign";
+    o << ",\"verdict\":\"" << verdict << "\"";
+    if (w.viol.set) {
+        o << ",\"oracle\":\"" << jesc(w.viol.oracle) << "\",\"op_index\":" << w.viol.op_index << ",\"op\":\"" << jesc(w.viol.op)
+          << "\",\"arg_class\":\"" << jesc(w.viol.arg_class) << "\",\"detail\":\"" << jesc(w.viol.detail.substr(0, 600)) << "\"";
+    }
+    o << ",\"hash\":\"" << hex64(ev.h) << "\",\"shape\":\"" << hex64(shape.h) << "\",\"nops\":" << p.ops.size()
+      << ",\"final_state\":\"" << hex64(w.have_last ? node_hash(w.last, true) : 0) << "\",\"nstates\":" << w.state_hashes.size()
+      << ",\"ntriples\":" << w.triples.size();
+    o << ",\"triples\":[";
+    { int k = 0; for (auto t : w.triples) { if (k) o << ","; o << "\"" << hex64(t) << "\""; if (++k >= 48) break; } }
+    o << "],\"states\":[";
+    { int k = 0; for (auto t : w.state_hashes) { if (k) o << ","; o << "\"" << hex64(t) << "\""; if (++k >= 12) break; } }
+    o << "],\"cnt\":{";
+    bool first = true;
+    for (auto &kv : w.cnt.c) { if (!first) o << ","; first = false; o << "\"" << jesc(kv.first) << "\":" << kv.second; }
+    const DiskCounters &d = disk_counters();
+    o << (first ? "" : ",") << "\"disk.opens\":" << d.opens << ",\"disk.opens_write\":" << d.opens_write << ",\"disk.closes\":" << d.closes
+      << ",\"disk.preads\":" << d.preads << ",\"disk.pwrites\":" << d.pwrites << ",\"disk.ftruncates\":" << d.ftruncates << ",\"disk.flocks\":" << d.flocks
+      << ",\"disk.bytes_written\":" << d.bytes_written << ",\"disk.perturb_fired\":" << d.perturb_fired
+      << ",\"clock.reads\":" << clock_reads() << ",\"entropy.draws\":" << entropy_draws() << ",\"h5knob.applied\":" << h5knob_applied()
+      << ",\"getters\":" << w.getters;
+    o << "}}";
+    return o.str();
+}
+
+static void on_terminate() {
+    const char m[] = "nixsim: std::terminate called\n";
+    if (write(2, m, sizeof(m) - 1) < 0) {}
+    _exit(78);
+}
+
+// executes one plan in this process and returns the JSON result
+static std::string run_plan(const Plan &p, const std::string &dir, long idx, uint64_t seed) {
+    std::set_terminate(on_terminate);
     disk_set_dir(dir);
-    h5_warm();
-    clock_enable(true); clock_set(1600000000);
-    h5knob_set(1, 1);
-    std::string p = dir + "/a.nix";
-    nix::File f = nix::File::open(p, nix::FileMode::Overwrite);
-    nix::Block b = f.createBlock("b", "t");
-    nix::DataArray da = b.createDataArray("a", "t", nix::DataType::Double, nix::NDSize({3, 2}));
-    da.appendSampledDimension(0.5, "x", "ms");
-    da.appendSetDimension({"a", "b"});
-    nix::Tag t = b.createTag("t", "t", {1.0});
-    t.addReference(da);
-    nix::Section s = f.createSection("s", "t");
-    s.createProperty("p", nix::Variant(3.5));
-    b.metadata(s);
-    std::vector<std::string> viol; uint64_t g = 0;
-    ObsOpts o; o.check_lookups = true; o.check_dims = true;
-    Node d = observe(f, o, &viol, &g);
-    printf("%s", render(d).c_str());
-    for (auto &v : viol) printf("VIOL %s\n", v.c_str());
-    printf("getters=%llu hash=%s disk=%s writes=%llu fds=%d\n", (unsigned long long) g, hex64(node_hash(d)).c_str(), hex64(disk_event_hash()).c_str(),
-           (unsigned long long) disk_write_calls(p), disk_open_fds(p));
-    f.close();
-    printf("after close fds=%d clockreads=%llu knob=%llu\n", disk_open_fds(p), (unsigned long long) clock_reads(), (unsigned long long) h5knob_applied());
-    std::string bytes; disk_read_all(p, bytes);
-    printf("file %zu bytes hash %s\n", bytes.size(), hex64(hash_bytes(bytes.data(), bytes.size())).c_str());
-    return 0;
+    disk_reset_hash();
+    h5_quiet();
+    World *w = new World();     // never destroyed: the process _exits
+    w->lane_prop = lane_property(p.swarm.lane);
+    if (lane_is_special(p.swarm.lane)) run_special(*w, p, dir);
+    else w->run(p, dir);
+    return result_json(*w, p, idx, seed);
+}
+
+static uint64_t run_seed(uint64_t base, const std::string &lane, long idx) {
+    uint64_t l = 0; for (char c : lane) l = l * 131 + (unsigned char) c;
+    return mix3(base, l, (uint64_t) idx);
+}
+
+static std::string read_file_head(const std::string &path, size_t max) {
+    std::string d; disk_read_all(path, d);
+    if (d.size() > max) d.resize(max);
+    return d;
+}
+
+// summary of a sanitizer report: the SUMMARY line or the first "runtime error" line
+static std::string san_summary(const std::string &err) {
+    std::istringstream i(err);
+    std::string line, first, summary, frame;
+    while (std::getline(i, line)) {
+        if (first.empty() && (line.find("runtime error:") != std::string::npos || line.find("ERROR: AddressSanitizer") != std::string::npos || line.find("terminate") != std::string::npos)) first = line;
+        if (line.find("SUMMARY:") != std::string::npos && summary.empty()) summary = line;
+        if (frame.empty() && line.find("    #") != std::string::npos && line.find("/repo/") != std::string::npos) frame = line;
+    }
+    std::string s = first;
+    if (!summary.empty()) s += " | " + summary;
+    if (!frame.empty()) s += " | " + frame;
+    return s.substr(0, 700);
+}
+
+static int fork_run(const Plan &p, const std::string &dir, long idx, uint64_t seed, std::string &out_line) {
+    int fds[2];
+    if (pipe(fds) != 0) return -1;
+    std::string errpath = dir + ".stderr";
+    g_prog->op_index = -1; g_prog->op_kind = -1;
+    pid_t pid = fork();
+    if (pid == 0) {
+        close(fds[0]);
+        int efd = (int) syscall(SYS_openat, AT_FDCWD, errpath.c_str(), O_WRONLY | O_CREAT | O_TRUNC, 0644);
+        if (efd >= 0) { dup2(efd, 2); }
+        alarm(p.swarm.big ? 120 : 60);
+        std::string res = run_plan(p, dir, idx, seed);
+        res += "\n";
+        size_t off = 0;
+        while (off < res.size()) { ssize_t n = write(fds[1], res.data() + off, res.size() - off); if (n <= 0) break; off += (size_t) n; }
+        _exit(0);
+    }
+    close(fds[1]);
+    std::string res;
+    char buf[8192];
+    for (;;) { ssize_t n = read(fds[0], buf, sizeof buf); if (n < 0 && errno == EINTR) continue; if (n <= 0) break; res.append(buf, (size_t) n); }
+    close(fds[0]);
+    int status = 0;
+    while (waitpid(pid, &status, 0) < 0 && errno == EINTR) {}
+    bool clean = WIFEXITED(status) && WEXITSTATUS(status) == 0 && !res.empty() && res[res.size() - 1] == '\n';
+    if (clean) { out_line = res.substr(0, res.size() - 1); }
+    else {
+        std::string err = read_file_head(errpath, 20000);
+        std::string lane_prop = lane_property(p.swarm.lane);
+        int oi = g_prog->op_index, ok = g_prog->op_kind;
+        std::string owner = (ok >= 0 && ok < OP_COUNT) ? op_owner(ok) : "C16";
+        std::string how;
+        if (WIFSIGNALED(status)) how = WTERMSIG(status) == SIGALRM ? "hang" : "signal " + std::to_string(WTERMSIG(status));
+        else how = "exit " + std::to_string(WEXITSTATUS(status));
+        bool hang = WIFSIGNALED(status) && WTERMSIG(status) == SIGALRM;
+        std::string prop = (owner == lane_prop) ? lane_prop : "C16";
+        std::string verdict = prop == lane_prop ? "viol" : "foreign";
+        std::string summ = san_summary(err);
+        std::string fn = hang ? "hang" : "crash";
+        size_t in = hang ? std::string::npos : summ.find(" in ");
+        if (in != std::string::npos) { size_t e = summ.find_first_of(" (|", in + 4); fn = summ.substr(in + 4, e == std::string::npos ? std::string::npos : e - in - 4); }
+        std::ostringstream o;
+        Hash shape; for (auto &op : p.ops) shape.u64((uint64_t) op.kind);
+        o << "{\"idx\":" << idx << ",\"seed\":" << seed << ",\"lane\":\"" << p.swarm.lane << "\",\"verdict\":\"" << verdict << "\",\"oracle\":\"" << prop << ".crash\",\"op_index\":" << oi
+          << ",\"op\":\"" << (ok >= 0 ? op_name(ok) : "-") << "\",\"arg_class\":\"" << jesc(fn) << "\",\"detail\":\"" << jesc(how + ": " + summ) << "\",\"hash\":\"" << hex64(mix3((uint64_t) oi, (uint64_t) ok, 77))
+          << "\",\"shape\":\"" << hex64(shape.h) << "\",\"nops\":" << p.ops.size() << ",\"final_state\":\"0\",\"nstates\":0,\"ntriples\":0,\"triples\":[],\"states\":[],\"cnt\":{\"crashed_runs\":1}}";
+        out_line = o.str();
+    }
+    wipe_dir(dir);
+    syscall(SYS_unlink, errpath.c_str());
+    return clean ? 0 : 1;
+}
+
+static std::string make_dir(const std::string &tag) {
+    const char *base = getenv("NIXSIM_TMP");
+    std::string root = base ? base : "/dev/shm";
+    std::string dir = root + "/nixsim-" + tag + "-" + std::to_string((long) getpid());
+    mkdir(dir.c_str(), 0755);
+    return dir;
+}
+
+int main(int argc, char **argv) {
+    if (argc < 2) { fprintf(stderr, "usage: nixsim worker|plan|exec|lanes ...\n"); return 64; }
+    std::string cmd = argv[1];
+    if (cmd == "lanes") { for (auto &l : lane_list()) printf("%s %s\n", l.c_str(), lane_property(l)); return 0; }
+    if (cmd == "plan" && argc >= 6) {
+        std::string lane = argv[2]; uint64_t base = strtoull(argv[3], 0, 10); int tier = atoi(argv[4]); long idx = atol(argv[5]);
+        Plan p = generate_plan(lane, run_seed(base, lane, idx), tier);
+        fputs(plan_to_text(p).c_str(), stdout);
+        return 0;
+    }
+    g_prog = (Progress *) mmap(nullptr, 4096, PROT_READ | PROT_WRITE, MAP_SHARED | MAP_ANONYMOUS, -1, 0);
+    if (cmd == "exec" && argc >= 3) {
+        // run one plan file in a forked child of this fresh process (same path as the batch)
+        std::string text; if (!disk_read_all(argv[2], text)) { fprintf(stderr, "cannot read %s\n", argv[2]); return 64; }
+        Plan p; if (!plan_from_text(text, p)) { fprintf(stderr, "bad plan file\n"); return 64; }
+        std::string dir = make_dir("x");
+        h5_warm();
+        std::string line;
+        if (getenv("NIXSIM_TRACE")) { fflush(stdout); line = run_plan(p, dir, -1, 0); wipe_dir(dir); }   // in-process, so that the trace is visible
+        else fork_run(p, dir, -1, 0, line);
+        rmdir(dir.c_str());
+        puts(line.c_str());
+        return 0;
+    }
+    if (cmd == "worker" && argc >= 7) {
+        std::string lane = argv[2]; uint64_t base = strtoull(argv[3], 0, 10); int tier = atoi(argv[4]); long from = atol(argv[5]), to = atol(argv[6]);
+        long stride = argc >= 8 ? atol(argv[7]) : 1;
+        if (!lane_known(lane)) { fprintf(stderr, "unknown lane %s\n", lane.c_str()); return 64; }
+        std::string dir = make_dir("w");
+        h5_warm();
+        if (getenv("NIXSIM_DIRTY_ZYGOTE")) {
+            // selfcheck: make the zygote's heap and HDF5 state different before any run
+            std::vector<std::string *> junk; for (int i = 0; i < 20000; i++) junk.push_back(new std::string((size_t) (i % 97), 'x'));
+            for (size_t i = 0; i < junk.size(); i += 2) delete junk[i];
+        }
+        for (long idx = from; idx < to; idx += stride) {
+            uint64_t seed = run_seed(base, lane, idx);
+            Plan p = generate_plan(lane, seed, tier);
+            std::string line;
+            fork_run(p, dir, idx, seed, line);
+            puts(line.c_str());
+            fflush(stdout);
+        }
+        rmdir(dir.c_str());
+        return 0;
+    }
+    fprintf(stderr, "bad arguments\n");
+    return 64;
 }
